@@ -31,7 +31,7 @@ func TestCorpusParses(t *testing.T) {
 		t.Skip("corpus not found")
 	}
 	sort.Strings(files)
-	var nOK, nUnsup, nMal, nSkip int
+	var nOK, nUnsup, nMal, nSkip, execOK, execOther int
 	for _, f := range files {
 		name := filepath.Base(f)
 		src, err := os.ReadFile(f)
@@ -71,8 +71,41 @@ func TestCorpusParses(t *testing.T) {
 		case nil:
 			nOK++
 			_ = p.Decls()
-			_ = p.Resources()
 			_ = p.EntryPoints()
+			// execute every compute entry point over zeroed 1 KiB buffers: must not panic, and must
+			// classify its outcome with the xrt error types.
+			for _, ep := range p.EntryPoints() {
+				bufs := xrt.Buffers{}
+				for _, r := range p.Resources() {
+					if r.HasReg {
+						bufs[xrt.Binding{Group: r.Reg.Space, Binding: r.Reg.Index}] = make([]byte, 1024)
+					}
+				}
+				err := func() (err error) {
+					defer func() {
+						if r := recover(); r != nil {
+							t.Errorf("%s/%s: Exec panicked: %v", name, ep.Name, r)
+						}
+					}()
+					return p.Exec(bufs, Opts{Opts: xrt.Opts{EntryPoint: ep.Name, StepLimit: 200000}})
+				}()
+				switch e := err.(type) {
+				case nil:
+					execOK++
+				case *xrt.Unsupported, *xrt.StepLimit:
+					execOther++
+					if testing.Verbose() {
+						t.Logf("%s/%s: %v", name, ep.Name, e)
+					}
+				case *xrt.Trap:
+					execOther++
+					t.Logf("%s/%s: %v", name, ep.Name, e)
+				case *xrt.Malformed:
+					t.Errorf("%s/%s: Exec Malformed: %v", name, ep.Name, e)
+				default:
+					t.Errorf("%s/%s: unexpected error type %T: %v", name, ep.Name, err, err)
+				}
+			}
 		case *xrt.Unsupported:
 			nUnsup++
 			t.Logf("%s: %v", name, e)
@@ -86,5 +119,5 @@ func TestCorpusParses(t *testing.T) {
 			t.Errorf("%s: unexpected error type %T: %v", name, err, err)
 		}
 	}
-	t.Logf("corpus: %d parsed, %d unsupported, %d malformed (triaged), %d not compiled by naga", nOK, nUnsup, nMal, nSkip)
+	t.Logf("corpus: %d parsed, %d unsupported, %d malformed (triaged), %d not compiled by naga; entry points executed cleanly %d, stopped (unsupported/trap/step limit) %d", nOK, nUnsup, nMal, nSkip, execOK, execOther)
 }
